@@ -38,7 +38,8 @@ Fault schedule
      `close` faults default to 'after' (the handle is really closed, the caller sees an exception), so that a later
      "database is locked" cannot be an artefact of the injection itself.
 `Fault(..., thread='T1')`            only calls made by that thread count / match
-`Tracer.set_faults(list)` replaces the schedule, `Tracer.clear_faults()` empties it.  A fault fires once.
+`Tracer.set_faults(list)` replaces the schedule, `Tracer.clear_faults()` empties it.  A fault fires once; at most one
+fault fires per call (the first matching entry); the `nth` counters of all pending entries advance on every call of their kind.
 
 Hooks (deterministic schedulers for C35/C20)
 --------------------------------------------
@@ -183,15 +184,17 @@ class Tracer(object):
             i = self._next; self._next += 1
             fault = None
             for f in self._faults:
+                # every pending fault sees the call (its per-kind counter advances even when an earlier entry fires)
                 if f.fired: continue
                 if f.thread is not None and f.thread != tname: continue
+                hit = False
                 if f.index is not None:
-                    if f.index == i: fault = f
+                    hit = f.index == i
                 elif f.call == call:
-                    if f.seen == f.nth: fault = f
+                    hit = f.seen == f.nth
                     f.seen += 1
-                if fault is not None:
-                    fault.fired = True; break
+                if hit and fault is None:
+                    fault = f; f.fired = True
             ev = {'i': i, 'call': call, 'con': getattr(con, 'trace_id', None), 'sql': sql, 'kind': classify_sql(sql),
                   'thread': tname, 'outcome': None, 'injected': fault is not None}
             self.events.append(ev)
